@@ -233,11 +233,11 @@ package phttp
 //@ ensures [http2-guard-around-the-client] typeis(result, *panicOnHTTP1Client) && result.(*panicOnHTTP1Client).Client == result_of(NewRedirectingClient, 0)
 
 //@ func DefaultHTTPGunConfig
-//@ props C17 C09
+//@ props C17 C09 C10
 //@ ensures [documented-defaults] !result.SSL && result.Client == result_of(DefaultClientConfig, 0) && !result.AutoTag.Enabled && result.AutoTag.URIElements == 2 && result.AutoTag.NoTagOnly && !result.AnswLog.Enabled && result.AnswLog.Path == "answ.log" && result.AnswLog.Filter == "error" && !result.HTTPTrace.DumpEnabled && !result.HTTPTrace.TraceEnabled && !result.SharedClient.Enabled
 
 //@ func DefaultHTTP2GunConfig
-//@ props C17 C09
+//@ props C17 C09 C10
 //@ ensures [documented-defaults] result.SSL && result.Client == result_of(DefaultClientConfig, 0) && !result.AutoTag.Enabled && result.AutoTag.URIElements == 2 && result.AutoTag.NoTagOnly && !result.AnswLog.Enabled && result.AnswLog.Path == "answ.log" && result.AnswLog.Filter == "error" && !result.HTTPTrace.DumpEnabled && !result.HTTPTrace.TraceEnabled && !result.SharedClient.Enabled
 
 // DNS pre-resolution: off when the cache is off; an already resolved target or a successful lookup turns the cache off.
@@ -307,7 +307,7 @@ package phttp
 //@ at call NewBaseGun assert [resolved-target-defaults-to-the-target] arg(cfg).TargetResolved == ite(cfg0.TargetResolved == "", cfg0.Target, cfg0.TargetResolved) && arg(cfg).Target == cfg0.Target && arg(cfg).SSL == cfg0.SSL && arg(cfg).Client == cfg0.Client && arg(answLog) == answLog0
 
 //@ func DefaultConnectGunConfig
-//@ props C17 C09
+//@ props C17 C09 C10
 //@ ensures [documented-defaults] !result.SSL && result.Client == result_of(DefaultClientConfig, 0) && !result.AutoTag.Enabled && result.AutoTag.URIElements == 2 && result.AutoTag.NoTagOnly && !result.AnswLog.Enabled && result.AnswLog.Path == "answ.log" && result.AnswLog.Filter == "error" && !result.HTTPTrace.DumpEnabled && !result.HTTPTrace.TraceEnabled
 
 //@ func newConnectClient
